@@ -1,7 +1,202 @@
-(* C06 -- placeholder until the invariant proofs land: definitional sanity of the sync model. *)
-From Coq Require Import NArith List.
-From Snap.Array Require Import ArrayDefs SyncModel.
+(* C06 -- stripes recorded as synced always have valid parity: the invariant of the sync model.
+   Statements only; the proofs are in Array/SyncProofs{Defs,Stripe,Loop,Examples}.v, the model in
+   Array/ArrayDefs.v + Array/SyncModel.v.
+
+   Vocabulary (Array/SyncProofsDefs.v):
+     slots c pos / slot_of c pos j   the slot of every disk position at stripe pos (no disk = SEmpty)
+     MapOK c            per disk: no two file blocks share a position, positions strictly increase inside a file,
+                        no duplicate DELETED position, no DELETED entry under a file block of the same disk
+     stripe_synced c p  every slot at p is SEmpty or a BLK file block, and at least one is a file block
+     stripe_quiet c p   same with "BLK, or CHG with a unique recorded hash"
+     enc_ok c p v       |v| = number of disk positions; v_j hashes (over the block's length) to the recorded hash
+                        of the file block at slot j; v_j = 0 at an empty slot
+     ParOK c par        every synced stripe holds, in every level, PEnc v with enc_ok v (so the parity is long enough)
+     PastOK c par p     if stripe p is quiet then every level holds PEnc v with enc_ok v: the soundness condition
+                        of "parity_needs_to_be_updated = 0" (sync.c:1001-1010); established for every position by
+                        loading with clear_past_hash (state.c, snapraid.c:1372, asserted at sync.c:699)
+     faults_wf          the injected read outcome of a FILE slot is neither RdNone nor RdOk with a length other than
+                        file_block_size: these two are not outcomes of sync_data_reader (see C06_fault_* below)
+     same_views c c' p  the slots of c and c' at p agree on everything except the other blocks of the file
+                        (name, size, mtime, nsec, inode, copy flag, block index, block state/position/hash) *)
+From Coq Require Import NArith ZArith List Bool Arith.
+From Snap.Array Require Import ArrayDefs SyncModel SyncProofsDefs SyncProofsStripe SyncProofsLoop SyncProofsExamples.
 Import ListNotations.
-Theorem C06_enabled_needs_file : forall o slots, stripe_enabled o slots = true -> existsb slot_has_file slots = true.
-Proof. intros o slots H. unfold stripe_enabled in H. apply Bool.andb_true_iff in H. exact (proj1 H). Qed.
-Print Assumptions C06_enabled_needs_file.
+
+(* 1. one iteration keeps the block map *)
+Theorem C06_sync_stripe_map :
+  forall (hashf : bid -> N -> hval) (bs : N) (nlev : nat) (o : sopts) (now : N) (iob : nat) (c : content)
+         (par : list penc) (fs : list (option fsdisk)) (faults : list (option rd)) (pos : nat),
+    MapOK c -> MapOK (so_content (sync_stripe hashf bs nlev o now iob c par fs faults pos)).
+Proof. exact sync_stripe_map. Qed.
+Print Assumptions C06_sync_stripe_map.
+
+(* 2. frame: an iteration at pos changes nothing at another position and never a file's identity *)
+Theorem C06_sync_stripe_other_stripes :
+  forall (hashf : bid -> N -> hval) (bs : N) (nlev : nat) (o : sopts) (now : N) (iob : nat) (c : content)
+         (par : list penc) (fs : list (option fsdisk)) (faults : list (option rd)) (pos : nat),
+    let c' := so_content (sync_stripe hashf bs nlev o now iob c par fs faults pos) in
+    map disk_attrs (c_disks c') = map disk_attrs (c_disks c) /\
+    (forall p : nat, p <> pos ->
+       same_views c c' p /\
+       nth p (c_info c') None = nth p (c_info c) None /\
+       (stripe_synced c' p <-> stripe_synced c p) /\
+       (stripe_quiet c' p <-> stripe_quiet c p) /\
+       (forall v : list bid, enc_ok hashf bs c' p v <-> enc_ok hashf bs c p v)).
+Proof. exact sync_stripe_other_stripes. Qed.
+Print Assumptions C06_sync_stripe_other_stripes.
+
+(* 3. one iteration keeps the parity invariant (any options, any data on the disks, any well-formed faults,
+      completed with or without a parity write, skipped, or bailing) *)
+Theorem C06_sync_stripe_par :
+  forall (hashf : bid -> N -> hval) (bs : N) (nlev : nat) (o : sopts) (now : N) (iob : nat) (c : content)
+         (par : parity) (fs : list (option fsdisk)) (faults : list (option rd)) (pos : nat),
+    faults_wf bs c pos faults ->
+    ParOK hashf bs c par ->
+    PastOK hashf bs c par pos ->
+    let r := sync_stripe hashf bs nlev o now iob c (map (fun lv : list penc => nth pos lv PNone) par) fs faults pos in
+    let par' := match so_write r with Some v => set_parity par pos v | None => par end in
+    ParOK hashf bs (so_content r) par'.
+Proof. exact sync_stripe_par. Qed.
+Print Assumptions C06_sync_stripe_par.
+
+(* 4. the loop: any list of distinct stripes, any stop point, bailing runs included *)
+Theorem C06_sync_loop_inv :
+  forall (hashf : bid -> N -> hval) (bs : N) (nlev : nat) (stripes : list nat) (o : sopts) (now : N)
+         (fs : list (option fsdisk)) (faults : nat -> list (option rd)) (stop : option nat) (c : content)
+         (par : parity) (ne ns ni : nat),
+    NoDup stripes ->
+    (forall p : nat, In p stripes -> faults_wf bs c p (faults p)) ->
+    MapOK c ->
+    ParOK hashf bs c par ->
+    (forall p : nat, In p stripes -> PastOK hashf bs c par p) ->
+    let r := sync_loop hashf bs nlev o now fs faults stripes stop c par ne ns ni in
+    MapOK (ro_content r) /\ ParOK hashf bs (ro_content r) (ro_parity r).
+Proof. exact sync_loop_inv. Qed.
+Print Assumptions C06_sync_loop_inv.
+
+(* 5. saving (DELETED entries dropped only where no file block remains) and loading with clear_past_hash *)
+Theorem C06_save_normalise_inv :
+  forall (hashf : bid -> N -> hval) (bs : N) (c : content) (par : parity),
+    MapOK c -> ParOK hashf bs c par -> MapOK (save_normalise c) /\ ParOK hashf bs (save_normalise c) par.
+Proof. exact save_normalise_inv. Qed.
+Print Assumptions C06_save_normalise_inv.
+
+(* the crux of 5: a stripe that is synced after normalisation lost none of its DELETED entries *)
+Theorem C06_save_synced_slots :
+  forall (c : content) (pos : nat),
+    stripe_synced (save_normalise c) pos -> forall j : nat, slot_of (save_normalise c) pos j = slot_of c pos j.
+Proof. exact save_synced_slots. Qed.
+Print Assumptions C06_save_synced_slots.
+
+Theorem C06_clear_past_inv :
+  forall (hashf : bid -> N -> hval) (bs : N) (c : content) (par : parity),
+    MapOK c -> ParOK hashf bs c par ->
+    MapOK (clear_past c) /\ ParOK hashf bs (clear_past c) par /\
+    (forall pos : nat, PastOK hashf bs (clear_past c) par pos).
+Proof. exact clear_past_inv. Qed.
+Print Assumptions C06_clear_past_inv.
+
+(* 6. the property's first sentence, in every state reachable through rounds of load / sync loop / save
+      (reach: SyncProofsLoop.v; the states after each of the three phases are included) *)
+Theorem C06_synced_parity_valid :
+  forall (hashf : bid -> N -> hval) (bs : N) (nlev : nat) (ph : phase) (c : content) (par : parity),
+    reach hashf bs nlev ph c par ->
+    forall pos : nat, stripe_synced c pos ->
+    forall lv : list penc, In lv par -> exists v : list bid, nth pos lv PNone = PEnc v /\ enc_ok hashf bs c pos v.
+Proof. exact synced_parity_valid. Qed.
+Print Assumptions C06_synced_parity_valid.
+
+Theorem C06_reachable_inv :
+  forall (hashf : bid -> N -> hval) (bs : N) (nlev : nat) (ph : phase) (c : content) (par : parity),
+    reach hashf bs nlev ph c par ->
+    MapOK c /\ ParOK hashf bs c par /\ (ph = Loaded -> forall pos : nat, PastOK hashf bs c par pos).
+Proof. exact reach_inv. Qed.
+Print Assumptions C06_reachable_inv.
+
+(* 7. with a failing parity write the invariant is false (finding F-C08): sync_loop' = sync_loop except that the
+      write of level l at stripe pos is dropped when `drop pos l`.  Full-strength statement refuted, partial proved. *)
+Theorem C06_inv_write_fault_refuted :
+  exists (hashf : bid -> N -> hval) (bs : N) (nlev : nat) (drop : nat -> nat -> bool) (o : sopts) (now : N)
+         (fs : list (option fsdisk)) (faults : nat -> list (option rd)) (stripes : list nat) (stop : option nat)
+         (c : content) (par : parity),
+    MapOK c /\ ParOK hashf bs c par /\ (forall pos : nat, PastOK hashf bs c par pos) /\
+    NoDup stripes /\ (forall p : nat, In p stripes -> faults_wf bs c p (faults p)) /\
+    (let r := sync_loop' hashf bs nlev drop o now fs faults stripes stop c par 0 0 0 in
+     ro_bailed r = false /\ ro_nerr r = 0 /\ ro_nsilent r = 0 /\ ro_nio r = 0 /\
+     ~ ParOK hashf bs (ro_content r) (ro_parity r)).
+Proof. exact inv_write_fault_refuted. Qed.
+Print Assumptions C06_inv_write_fault_refuted.
+
+Theorem C06_sync_loop_write_fault_partial :
+  forall (hashf : bid -> N -> hval) (bs : N) (nlev : nat) (drop : nat -> nat -> bool) (stripes : list nat)
+         (o : sopts) (now : N) (fs : list (option fsdisk)) (faults : nat -> list (option rd)) (stop : option nat)
+         (c : content) (par : parity) (ne ns ni : nat),
+    (forall pos l : nat, drop pos l = false) ->
+    NoDup stripes ->
+    (forall p : nat, In p stripes -> faults_wf bs c p (faults p)) ->
+    MapOK c -> ParOK hashf bs c par ->
+    (forall p : nat, In p stripes -> PastOK hashf bs c par p) ->
+    let r := sync_loop' hashf bs nlev drop o now fs faults stripes stop c par ne ns ni in
+    MapOK (ro_content r) /\ ParOK hashf bs (ro_content r) (ro_parity r).
+Proof. exact sync_loop'_inv_partial. Qed.
+Print Assumptions C06_sync_loop_write_fault_partial.
+
+(* ---- non-vacuity ---- *)
+Local Open Scope N_scope.
+(* e_c: 3 disks, 2 levels; stripe 0 = BLK BLK -, 1 = BLK REP -, 2 = CHG(invalid) DELETED -, 3 = - BLK CHG(unique) *)
+Example C06_ex_hyps :
+  NoDup [0; 1; 2; 3]%nat /\ (forall p, In p [0; 1; 2; 3]%nat -> faults_wf w_bs e_c p (e_faults p))
+  /\ MapOK e_c /\ ParOK w_hashf w_bs e_c e_par /\ (forall p, In p [0; 1; 2; 3]%nat -> PastOK w_hashf w_bs e_c e_par p).
+Proof. exact e_hyps. Qed.
+(* ParOK and PastOK are not vacuous on e_c: stripe 0 is synced, stripe 3 is quiet and not synced *)
+Example C06_ex_synced0 : stripe_synced e_c 0%nat.
+Proof. exact e_synced0. Qed.
+Example C06_ex_quiet3 : stripe_quiet e_c 3%nat /\ ~ stripe_synced e_c 3%nat.
+Proof. exact e_quiet3. Qed.
+(* the run of sync_loop (vm_compute): stripes 1, 2 rewritten, stripe 3 completed without a parity write *)
+Example C06_ex_run :
+  ro_bailed e_run = false
+  /\ ro_parity e_run = [[PEnc [11; 21; 0]; PEnc [12; 22; 0]; PEnc [13; 0; 0]; PEnc [0; 23; 33]];
+                        [PEnc [11; 21; 0]; PEnc [12; 22; 0]; PEnc [13; 0; 0]; PEnc [0; 23; 33]]]
+  /\ c_disks (ro_content e_run) =
+     [Some (mkCD [mkCF 1 2048 0 0 10 false [mkFB SBlk 0%nat (w_hashf 11 1024); mkFB SBlk 1%nat (w_hashf 12 1024)];
+                  mkCF 2 1000 0 0 11 false [mkFB SBlk 2%nat (w_hashf 13 1000)]] [] [] []);
+      Some (mkCD [mkCF 1 1024 0 0 20 false [mkFB SBlk 0%nat (w_hashf 21 1024)];
+                  mkCF 2 1024 0 0 21 false [mkFB SBlk 1%nat (w_hashf 22 1024)];
+                  mkCF 3 1024 0 0 22 false [mkFB SBlk 3%nat (w_hashf 23 1024)]] [] [] []);
+      Some (mkCD [mkCF 1 500 0 0 30 false [mkFB SBlk 3%nat (w_hashf 33 500)]] [] [] [])]
+  /\ nth 3%nat (c_info (ro_content e_run)) None = None.
+Proof. exact e_run_result. Qed.
+Example C06_ex_stripe3_nowrite :
+  so_write (sync_stripe w_hashf w_bs 2%nat w_opts 7 0%nat e_c (map (fun lv => nth 3%nat lv PNone) e_par) e_fs [] 3%nat) = None
+  /\ stripe_synced (so_content (sync_stripe w_hashf w_bs 2%nat w_opts 7 0%nat e_c (map (fun lv => nth 3%nat lv PNone) e_par) e_fs [] 3%nat)) 3%nat.
+Proof. exact e_stripe3_nowrite. Qed.
+
+(* reach is inhabited beyond R_init: a full round from w_c (2 disks, one CHG block) ends in a synced stripe *)
+Example C06_ex_reach :
+  reach w_hashf w_bs 1 Saved (save_normalise (ro_content r_run)) (ro_parity r_run)
+  /\ stripe_synced (save_normalise (ro_content r_run)) 0
+  /\ ro_parity r_run = [[PEnc [42; 0]]].
+Proof. exact reach_example. Qed.
+
+(* PastOK cannot be dropped from 3: unique-hash CHG over a parity that does not encode it, no write, recorded BLK *)
+Example C06_ex_pastok_needed :
+  ParOK w_hashf w_bs p_c [[PJunk 9]] /\
+  let r := sync_stripe w_hashf w_bs 1%nat w_opts 7 0%nat p_c (map (fun lv => nth 0%nat lv PNone) [[PJunk 9]]) w_fs [] 0%nat in
+  so_write r = None /\ ~ ParOK w_hashf w_bs (so_content r) [[PJunk 9]].
+Proof. exact pastok_needed. Qed.
+
+(* faults_wf cannot be dropped from 3: the two excluded injections break the invariant *)
+Example C06_fault_rdnone_breaks :
+  let r := sync_stripe w_hashf w_bs 1%nat w_opts 7 0%nat w_c (map (fun lv => nth 0%nat lv PNone) w_par) w_fs [Some RdNone] 0%nat in
+  ~ ParOK w_hashf w_bs (so_content r) (match so_write r with Some v => set_parity w_par 0%nat v | None => w_par end).
+Proof. exact fault_rdnone_breaks. Qed.
+Example C06_fault_len_breaks :
+  let r := sync_stripe w_hashf w_bs 1%nat w_opts 7 0%nat w_c (map (fun lv => nth 0%nat lv PNone) w_par) w_fs [Some (RdOk 42 7)] 0%nat in
+  ~ ParOK w_hashf w_bs (so_content r) (match so_write r with Some v => set_parity w_par 0%nat v | None => w_par end).
+Proof. exact fault_len_breaks. Qed.
+Print Assumptions C06_ex_hyps.
+Print Assumptions C06_ex_run.
+Print Assumptions C06_ex_pastok_needed.
+Print Assumptions C06_fault_rdnone_breaks.
+Print Assumptions C06_fault_len_breaks.
